@@ -239,7 +239,9 @@ type liveFix struct {
 	broken  bool
 	// used by the "refusal" property (refusal_test.go)
 	conn     *grpc.ClientConn
+	own      *clientv3.Client // the harness' own etcd client (raw dumps of the persisted cluster records)
 	refReady bool
+	refMeta  *metapb.Cluster // the cluster meta fixed at the refusal fixture's bootstrap (+ accepted config changes)
 }
 
 var (
@@ -366,6 +368,10 @@ func stopLive(f *liveFix) {
 	if f.conn != nil {
 		f.conn.Close()
 		f.conn = nil
+	}
+	if f.own != nil {
+		f.own.Close()
+		f.own = nil
 	}
 	done := make(chan struct{})
 	go func() {
